@@ -1,7 +1,7 @@
 #!/bin/bash
 # usage: run.sh [name-prefix ...]   (W = worktree; variants: C01 check must report; benign: all 20 checks silent)
 export GOFLAGS=-mod=mod GOPROXY=off GOSUMDB=off GOTOOLCHAIN=local; unset GOWORK
-W=${W:-/tmp/dev7/c01chain}; BIN=$W/bin/ctverif; D=$W/own/c01chain; M=$W/mut/own
+W=${W:-/tmp/dev7/c01chain}; BIN=${BIN:-$W/bin/ctverif}; D=$W/own/c01chain; M=$W/mut/own
 mkdir -p $M/home; cp $W/known_findings.json $M/home/
 for p in $D/${1:-}*.diff; do
   n=$(basename $p .diff)
